@@ -5,6 +5,7 @@ import (
 	"crypto/sha256"
 	"fmt"
 	"sort"
+	"strings"
 	"sync"
 
 	"github.com/ipld/go-ipld-prime"
@@ -88,6 +89,19 @@ type Node struct {
 	OnIncomingResponse func(p peer.ID, r graphsync.ResponseData, a graphsync.IncomingResponseHookActions)
 	OnIncomingBlock    func(p peer.ID, r graphsync.ResponseData, b graphsync.BlockData, a graphsync.IncomingBlockHookActions)
 	OnOutgoingRequest  func(p peer.ID, r graphsync.RequestData, a graphsync.OutgoingRequestHookActions)
+}
+
+// errText renders an error for the event log without run-specific detail
+// (recovered panics carry a stack trace with addresses).
+func errText(e error) string {
+	t := e.Error()
+	if i := strings.Index(t, ", stack trace:"); i >= 0 {
+		t = t[:i]
+	}
+	if len(t) > 300 {
+		t = t[:300]
+	}
+	return t
 }
 
 // ReqID derives a deterministic request ID from a label.
@@ -419,7 +433,7 @@ func (r *Req) Issue() {
 				}
 				r.Errs = append(r.Errs, e)
 				r.mu.Unlock()
-				w.Effect("read %s %s error %T %v", r.Node.Name, r.Label, e, e)
+				w.Effect("read %s %s error %T %s", r.Node.Name, r.Label, e, errText(e))
 			}
 		}()
 	}()
